@@ -30,6 +30,8 @@ ASSUMPTIONS = [
     "importable here so remove_stopwords is the identity in both implementations",
     "time windows: distinct time stamps only (sort stability of pandas sort_index is not exercised); null group keys and "
     "null time stamps are not generated; multi-column sources (x~0, x~1) are compared across frameworks only (no Lean model)",
+    "null group keys are deliberately not generated: with pyarrow 25 the PyArrow grouped ffill/bfill path then calls "
+    "pc.indices_nonzero on a zero-chunk array, which segfaults the interpreter (observed in a scratch process; it would kill the check)",
 ]
 
 TOL = 1e-9
@@ -510,13 +512,13 @@ def gen_cases(ctx: Ctx, scale: float = 1.0) -> List[Dict[str, Any]]:
     ]  # fmt: skip
 
     # aggregation: every op x generated columns
-    for _ in range(B(40, 900)):
+    for _ in range(B(110, 900)):
         kind = rng.choice(["float", "float", "int"])
         col = gen_col(rng, kind)
         for fn in v["aggr_ops"]:
             cases.append({"family": "aggr", "fn": fn, "kind": kind, "col": col})
     # imputation: every method x kind x (grouped | not)
-    for _ in range(B(50, 1200)):
+    for _ in range(B(170, 1200)):
         kind = rng.choice(["float", "float", "int", "str"])
         col = gen_col(rng, kind, need_null=rng.random() < 0.85)
         groups = None
@@ -536,7 +538,7 @@ def gen_cases(ctx: Ctx, scale: float = 1.0) -> List[Dict[str, Any]]:
                 case["groups"] = groups
             cases.append(case)
     # time windows: every function x window sizes x units
-    for _ in range(B(30, 700)):
+    for _ in range(B(80, 700)):
         kind = rng.choice(["float", "float", "int"])
         col = gen_col(rng, kind)
         n = len(col)
@@ -549,7 +551,7 @@ def gen_cases(ctx: Ctx, scale: float = 1.0) -> List[Dict[str, Any]]:
             cases.append({"family": "window", "fn": fn, "w": w, "unit": unit, "kind": kind, "col": col, "times": times})
     # text cleaning: single operations, sequences, empty sequence
     ops_all = v["text_ops"]
-    for _ in range(B(45, 1000)):
+    for _ in range(B(110, 1000)):
         n = rng.choice([1, 2, 3, 4])
         odd = rng.random() < 0.12
         col: List[Any] = [gen_text(rng, odd) for _ in range(n)]
@@ -564,7 +566,7 @@ def gen_cases(ctx: Ctx, scale: float = 1.0) -> List[Dict[str, Any]]:
         for ops in [[op] for op in ops_all]:
             cases.append({"family": "text", "ops": ops, "kind": "str", "col": [s]})
     # multi-column sources (x -> x~0, x~1): frameworks against each other only
-    for _ in range(B(6, 120)):
+    for _ in range(B(10, 120)):
         n = rng.choice([1, 2, 3, 4])
         multi = [[rng.choice(DYADIC) for _ in range(n)] for _ in range(2)]
         for fn in v["aggr_ops"]:
